@@ -338,6 +338,10 @@ def case_used(case):
                 o1 = augment(base, **ov_funcs(case["alt"], d["keys1"]))
                 touch_base(o1, True)                      # the intermediate MDP is used as well
                 o = augment(o1, **ov_funcs(case["alt"], d["keys"]))
+            elif d["how"] == "sub_task_of_derived":
+                o1 = augment(base, **ov_funcs(case["alt"], d["keys1"]))
+                touch_base(o1, True)
+                o = subgoal_option(o1, d).sub_task
             else:
                 o = subgoal_option(base, d).sub_task
             out["derived"].append(derived_report(o, n, nA))
@@ -386,6 +390,12 @@ def sim_json(res):
 def case_run(case):
     base = make_base(case["base"])
     out = {"runs": []}
+    if case.get("derive_first"):
+        # the option runs on an MDP that is itself DERIVED (and used): Option.run_on augments it again
+        from msdm.core.semimdp.option import augment
+        base = augment(base, **ov_funcs(case["derive_first"]["alt"], case["derive_first"]["keys"]))
+        if case["base"]["tabular"]:
+            touch_base(base, True)
     # ONE option object for all runs of the case (its step limit is changed between runs)
     log = []
     o = dict(case["option"]); o["max_steps"] = case["natural_cap"]
